@@ -12,6 +12,12 @@ ENGINES = [
      'kind_free_text': 'preemption-bounded controlled scheduler over compiler-inserted load/store hooks with conflict (race) monitor'},
 ]
 TEXT = {
+    'C13': {
+        'level': 'Explicit-state breadth-first search (depth 4 quick / 5 thorough, canonical slot-layout dedup) over a 60-operation alphabet (all Insert overloads, get-or-create, Remove by key/index, Rename, merge by copy/move, Reserve/Resize/Expect/Compress/Clear/Reset, Sort both ways, copy/move construction and assignment) on two registers of HArray<String,String> and HList<String>, with keys chosen by the real hash function to collide at capacities 2/4/8 (plus empty key, embedded NUL, equal low-16-bit hashes). After every transition every lookup function is compared with an ordered-map model for all alphabet keys and an absent key, key<->index agreement and live iteration order are checked, and the structural invariants of the one-block table are verified (capacity power of two, every live item exactly once on the chain of Hash&(cap-1), acyclic chains, fresh stored hashes).',
+        'design_ref': 'DESIGN.md §5 C13',
+        'note': 'Built with -fno-access-control to read the bucket array. Slot numbers are never compared with a model; Resize is explored for n>=Size() and 0. Histories up to the stated depth.',
+        'technique': 'explicit-state BFS over operation histories on the implementation, ordered-map reference model + structural invariants on every state',
+    },
     'C14': {
         'level': 'Explicit-state breadth-first search (depth 5 quick / 6 thorough, canonical-state dedup) over ~45-operation alphabets on two registers each of Array<int>, Array<Tracked> (owning element that counts constructions/destructions), String<char|char16_t>, StringStream<char|char32_t>, including self-aliasing operations (a+=a, s.Write(s.First()..), stream<<stream); std::vector / std::basic_string reference models are compared after every transition through the public read API (contents, length, NUL terminator, Size<=Capacity, First/Last/End, iteration, all comparison operators, StringView over the same contents). Runs under ASan with and without the exact-fit growth hook, plus a fast SSE2 build. Memory::Copy and SetToZero: every length 0..4096 (quick 0..300) x 32 source x 32 destination misalignments with guard bytes against memcpy/memset in scalar, SSE2 and AVX2 builds.',
         'design_ref': 'DESIGN.md §5 C14',
